@@ -54,6 +54,7 @@ def main(tier, replay=None):
     # magnitudes: values beyond 32 bits (unit-scaled: the specification sees value / unit) and slice arguments beyond 32 bits
     camp.run([], pack(viewgen.unit_views(rng, 600 if quick else 6000), 50), "magnitude/values", sample=False)
     camp.run([], pack(viewgen.bigpos_views(rng, 400 if quick else 4000), 50), "magnitude/positions", sample=False)
+    camp.run([], [["reset"] + ["zipnull %d" % n for n in (0, 1, 2, 5, 8)]], "null-items", sample=False)
     # views over iterables longer than 2^31 items (a long Range costs nothing to build; a Slice seeks from the nearer end)
     camp.run([], [["reset"] + ["longview %d %d %s" % (a, b, k) for (a, b) in ((4768, 371200), (2048, 0), (2047, 1048575), (4096, 5), (1 << 16, 7))
                                for k in ("tail4", "neg3", "clamp", "step2", "rev")]], "magnitude/length", sample=False)
